@@ -178,6 +178,9 @@ def r_visit(P, R):
     if R.prop == 'C18':
         sizes(P, R)
         dot_layers(P, R)
+        # what the exported picture shows, and the legend of doc.md
+        from . import models
+        models.dot_model(P, R)
 r_visit.NAME = 'R-VISIT'
 
 
